@@ -234,17 +234,28 @@ Proof.
   unfold fail. apply emits_bind; [apply emits_set_errno|]. intros _.
   apply emits_bind; [apply emits_log|]. intros _. apply emits_ret.
 Qed.
+Lemma emits_failb c args sargs e : emits (failb c args sargs e) (call_is c args).
+Proof.
+  unfold failb, last_lat. apply emits_bind; [apply emits_gets|]. intros l.
+  apply emits_bind; [apply emits_set_errno|]. intros _.
+  apply emits_bind; [apply emits_log|]. intros _. apply emits_ret.
+Qed.
 Lemma emits_done c args sargs r outs : emits (done c args sargs r outs) (call_is c args).
 Proof.
   unfold done. apply emits_bind; [apply emits_log|]. intros _. apply emits_ret.
 Qed.
 
+Lemma emits_last_lat P : emits last_lat P.
+Proof. unfold last_lat. apply emits_gets. Qed.
+
 Ltac emits_step :=
   lazymatch goal with
+  | |- emits last_lat _ => apply emits_last_lat
   | |- emits (bind _ _) _ => apply emits_bind; [|intros ?]
   | |- emits (ret _) _ => apply emits_ret
   | |- emits prelude _ => apply emits_prelude
   | |- emits (fail _ _ _ _) _ => apply emits_fail
+  | |- emits (failb _ _ _ _) _ => apply emits_failb
   | |- emits (done _ _ _ _ _) _ => apply emits_done
   | |- emits (log _ _ _ _ _ _) _ => apply emits_log
   | |- emits (gets _) _ => apply emits_gets
